@@ -18,7 +18,7 @@ GROUP_OF = {
     "C01": "book", "C02": "book", "C03": "book", "C04": "book", "C08": "book", "C19": "book",
     "C05": "run", "C06": "run", "C09": "run", "C10": "run", "C11": "run", "C13": "run",
     "C14": "run", "C15": "run", "C16": "run", "C17": "run",
-    "C18": "table",
+    "C12": "table", "C18": "table", "C20": "table", "C07": "det",
 }
 
 
@@ -29,6 +29,9 @@ def _group(name):
     if name == "run":
         from . import group_run
         return group_run
+    if name == "det":
+        from . import group_det
+        return group_det
     if name == "table":
         from . import group_table
         return group_table
